@@ -74,29 +74,7 @@ pub(crate) fn c19_bounded_oneshot_vs_incremental_len3(s: &mut impl Src) {
     assert!(get_crc32(&buf[..n]) == !c32);
 }
 
-macro_rules! kc_harness {
-    ($($name:ident $(, unwind = $u:expr)?);* $(;)?) => {
-        $(
-            #[cfg(kani)]
-            mod $name {
-                #[kani::proof]
-                $(#[kani::unwind($u)])?
-                fn kani() { super::$name(&mut super::KSrc); }
-            }
-        )*
-        #[cfg(not(kani))]
-        pub(crate) fn replay(name: &str, data: Vec<u8>) -> Result<bool, String> {
-            let mut s = BSrc { data, pos: 0, rejected: false };
-            match name {
-                $( stringify!($name) => { $name(&mut s); } )*
-                _ => return Err(format!("unknown harness {name}")),
-            }
-            Ok(!s.rejected)
-        }
-        #[cfg(not(kani))]
-        pub(crate) const HARNESSES: &[&str] = &[$(stringify!($name)),*];
-    };
-}
+include!("/verif/kc/harness_macro.rs");
 kc_harness! {
     c19_crc16_table_entry;
     c19_crc32_table0_entry;
@@ -106,18 +84,3 @@ kc_harness! {
     c19_bounded_oneshot_vs_incremental_len3, unwind = 5;
 }
 
-#[cfg(all(test, not(kani)))]
-mod replay_test {
-    // VK_REPLAY="<harness>:<hex bytes>"  cargo test --lib verif_kani::replay_test -- --nocapture
-    #[test]
-    fn vk_replay() {
-        let Ok(spec) = std::env::var("VK_REPLAY") else { return };
-        let (name, hex) = spec.split_once(':').unwrap();
-        if !super::HARNESSES.contains(&name) {
-            return;
-        }
-        let data: Vec<u8> = (0..hex.len() / 2).map(|i| u8::from_str_radix(&hex[2 * i..2 * i + 2], 16).unwrap()).collect();
-        let r = super::replay(name, data);
-        println!("VK_REPLAY_RESULT {name} {r:?}");
-    }
-}
